@@ -20,7 +20,7 @@ def run(ctx):
         "harness/src/bin/c05.rs: visible-tree dump through a TreeCursor walk (kind, named, field, missing/error/extra) and match recording through QueryCursor::matches",
         "the query compiler, step automaton and analysis of query.c are not modelled: they are compared with the model on every generated case",
     ]
-    ctx.assumptions += ["match limit unbounded; queries from the generated subset (no groups, supertypes, predicates)"]
+    ctx.assumptions += ["match limit unbounded; queries from the generated subset (no top-level groups, no predicates)"]
     ctx.regen()
     ctx.prove(["TsVerif.C05.Props", "TsVerif.C05.VerifyProps"], "TsVerif/C05/Audit.lean")
     driver = ctx.build_driver("tsv-c05")
